@@ -10,6 +10,8 @@ pub enum Sel {
     /// struct VIEW: only the listed fields are translated (the generated structure has exactly these);
     /// a selected method that touches any other field is a TRANSLATE-ERROR
     StructView(&'static str, &'static [&'static str]),
+    /// `type Name = T;` (transparent: every use of `Name` is `T`)
+    TypeAlias(&'static str),
     /// struct without the named IGNORED fields: statements that only write them (assignments, method calls on them,
     /// `let`s / `if`s of values computed from them) are dropped like `log::…!`; any other read of them is an error
     StructIgnore(&'static str, &'static [&'static str]),
@@ -39,7 +41,10 @@ pub const GROUPS: &[(&str, &[(&str, &[Sel])])] = &[
     (
         "Common",
         &[
-            ("renet/src/packet.rs", &[Sel::Const("SLICE_SIZE"), Sel::Struct("Slice"), Sel::Enum("Packet"), Sel::Enum("SerializationError")]),
+            (
+                "renet/src/packet.rs",
+                &[Sel::Const("SLICE_SIZE"), Sel::TypeAlias("Payload"), Sel::Struct("Slice"), Sel::Enum("Packet"), Sel::Enum("SerializationError")],
+            ),
             (
                 "renetcode/src/lib.rs",
                 &[
@@ -217,6 +222,11 @@ pub const GROUPS: &[(&str, &[(&str, &[Sel])])] = &[
                 Sel::Method("RenetClient", "receive_message"),
             ],
         )],
+    ),
+    // the connection object: packets of one tick
+    (
+        "ConnSend",
+        &[("renet/src/remote_connection.rs", &[Sel::Method("RenetClient", "get_packets_to_send")])],
     ),
     (
         "TokenTable",
